@@ -4,6 +4,7 @@ import (
 	"fmt"
 
 	"github.com/grindlemire/go-lucene/verif/core"
+	"github.com/grindlemire/go-lucene/verif/gen"
 	"github.com/grindlemire/go-lucene/verif/mon"
 	"github.com/grindlemire/go-lucene/verif/qt"
 )
@@ -71,7 +72,7 @@ func (p c05) RunBatch(ctx *core.Ctx, batch int) {
 	default:
 		// random deeper trees
 		r := ctx.Rand("deep")
-		leaves := qt.FullLeaves()
+		leaves := append(qt.FullLeaves(), qt.HostileLeaves(r, gen.HostileStrings, 16, true)...)
 		for i := 0; i < 1500; i++ {
 			t := qt.RandomTree(r, leaves, 2+r.Intn(5))
 			if t.Size() > 40 {
